@@ -101,7 +101,7 @@ def run(chk):
                         construct=name)
                 # vector laplacian, default component count (= d) and explicit count m != d
                 name = "_vectorial_laplacian"
-                for mm, explicit in ((d, False), (d, True), (d + 1, True)):
+                for mm, explicit in ((d, False), (d, True), (d + 1, True)) + (((d - 1, True),) if d >= 2 else ()):
                     um = Net('u', kind, mm, et, d)
                     cfg2 = dict(cfg, kind=kind, m=mm, u_vec_ndim=("explicit" if explicit else "default"))
                     exp_axes = (mm,) + gax
